@@ -138,6 +138,34 @@ func GenConfig(t *rapid.T, kind string) Config {
 	return c
 }
 
+// FocusThreshold rewrites c into a configuration that is all about counting distinct signers: a threshold of 2..3
+// over 2..3 co-signers whose list names one of them twice (anywhere in the list, possibly as its parity twin), and
+// nothing else that could decide the verdict (well-formed, not expired, hash well-formed).
+func FocusThreshold(t *rapid.T, c Config) Config {
+	c.Malformed = ""
+	if c.Locktime == "past" {
+		c.Locktime = "future"
+	}
+	c.NCosign = rapid.IntRange(2, 3).Draw(t, "focus_cosigners")
+	c.NSigs = rapid.IntRange(2, c.NCosign+b2i(c.Kind == "P2PK")).Draw(t, "focus_n_sigs")
+	c.DupLockInPubkeys = false
+	var base []int
+	for i := 0; i < c.NCosign; i++ {
+		base = append(base, Cosign0+i)
+	}
+	order := rapid.Permutation(base).Draw(t, "focus_pubkey_order")
+	rep := order[rapid.IntRange(0, len(order)-1).Draw(t, "focus_repeat_which")]
+	if rapid.IntRange(0, 2).Draw(t, "focus_repeat_as_parity_twin") == 0 {
+		rep += Twin
+	}
+	at := rapid.IntRange(0, len(order)).Draw(t, "focus_repeat_at")
+	c.PubkeyOrder = append(order[:at:at], append([]int{rep}, order[at:]...)...)
+	if c.Kind == "HTLC" {
+		c.HashKind = "ok"
+	}
+	return c
+}
+
 // orderConsistent: PubkeyOrder is honoured only while it still lists exactly the configured keys (callers adjust
 // NCosign / DupLockInPubkeys after generation)
 func (c Config) orderConsistent() bool {
